@@ -20,7 +20,7 @@ MARK = "urn:verif"
 
 # type -> [(python native, canonical lexical form)]
 VLEAVES = {
-    "string": [("hello", "hello"), ("x", "x"), ("a b", "a b"), ("0", "0"), ("héé ✓", "héé ✓"), ("", "")],
+    "string": [("hello", "hello"), ("x", "x"), ("a b", "a b"), ("0", "0"), ("héé ✓", "héé ✓"), (" ", " "), (" \n\t", " \n\t"), ("", "")],
     "int": [(0, "0"), (7, "7"), (-12, "-12"), (2147483647, "2147483647"), (-2147483648, "-2147483648")],
     "boolean": [(True, "true"), (False, "false")],
     "decimal": [(D("0"), "0"), (D("-1.5"), "-1.5"), (D("12345678901234567890.123"), "12345678901234567890.123")],
